@@ -53,7 +53,8 @@ type History struct {
 	Class        string `json:"class,omitempty"` // generator class, for the distribution report
 	Backend      string `json:"backend"`         // mem | fs | fsenc
 	SWRTimeoutNs int64  `json:"swr_timeout_ns"`
-	Logger       string `json:"logger"` // discard | debug
+	Logger       string `json:"logger"`               // discard | debug
+	Concurrent   bool   `json:"concurrent,omitempty"` // requests with equal at_ns are issued concurrently
 	Ops          []Op   `json:"ops"`
 }
 
